@@ -111,25 +111,46 @@ theorem logits_getD' (x : ℝ) (cuts : List ℝ) {j : ℕ} (hj : j < cuts.length
   push_cast
   ring
 
-/-- `softmax((X @ W + b) / self.temperature)`, row `i` -/
-theorem softmax_logits_get (T : ℝ) {n : ℕ} {Xa ba : Arr ℝ} {x : Fin n → ℝ} {cuts : List ℝ}
-    (hX : IsMat Xa (fun i (_ : Fin 1) => x i)) (hb : IsVec ba (Model.Douglas.bias cuts)) (i : Fin n) {j : ℕ}
-    (hj : j < cuts.length + 1) :
-    (softmax (divs (add (matmul Xa (reshapeRow (linspace 1 ((nat cuts.length : ℝ) + 1) (cuts.length + 1)))) ba) T)).get i.val j
-      = (binning T (x i) cuts).getD j 0 := by
+/-- `Wa` is, without error, the `(1, m + 1)` row of the bin weights `1, 2, …, m + 1` -/
+def IsWeights (Wa : Arr ℝ) (m : ℕ) : Prop :=
+  Wa.ok = true ∧ Wa.r = 1 ∧ Wa.c = m + 1 ∧ ∀ j, j < m + 1 → Wa.get 0 j = (j : ℝ) + 1
+
+/-- `np.expand_dims(np.linspace(1, n + 1, n + 1), axis=0)` is the row of the weights -/
+theorem isWeights_linspace (m : ℕ) : IsWeights (reshapeRow (linspace (1 : ℝ) ((nat m : ℝ) + 1) (m + 1))) m :=
+  ⟨by simp, by simp, by simp, fun j hj => by rw [reshapeRow_get]; exact linspace_one_get m 0 j hj⟩
+
+/-- entry `j` of `np.arange(1, n + 2, dtype=np.float64)` is `j + 1` -/
+theorem arangeFrom_one_get (b i j : ℕ) : (arangeFrom 1 b : Arr ℝ).get i j = (j : ℝ) + 1 := by
+  rw [arangeFrom_get]
+  simp only [nat_real]
+  split
+  · next h => subst h; simp
+  · split
+    · next h => subst h; norm_num
+    · push_cast; ring
+
+/-- `np.arange(1, n + 2, dtype=np.float64).reshape((1, -1))` is the row of the weights -/
+theorem isWeights_arangeFrom (m : ℕ) : IsWeights (reshapeRow (arangeFrom 1 (m + 2) : Arr ℝ)) m :=
+  ⟨by simp, by simp, by simp, fun j hj => by rw [reshapeRow_get]; exact arangeFrom_one_get _ 0 j⟩
+
+/-- `softmax((X @ W + b) / self.temperature)`, row `i`, for any spelling of the row `W` of the weights `1, …, n + 1` -/
+theorem softmax_logits_get_of_weights (T : ℝ) {n : ℕ} {Xa Wa ba : Arr ℝ} {x : Fin n → ℝ} {cuts : List ℝ}
+    (hW : IsWeights Wa cuts.length) (hX : IsMat Xa (fun i (_ : Fin 1) => x i)) (hb : IsVec ba (Model.Douglas.bias cuts))
+    (i : Fin n) {j : ℕ} (hj : j < cuts.length + 1) :
+    (softmax (divs (add (matmul Xa Wa) ba) T)).get i.val j = (binning T (x i) cuts).getD j 0 := by
+  obtain ⟨hWok, hWr, hWc, hWget⟩ := hW
   obtain ⟨hXok, hXr, hXc, hXget⟩ := hX
   obtain ⟨hbok, hbr, hbc, hbget⟩ := hb
   rw [bias_length] at hbc hbget
   have hrow : ∀ k : Fin (cuts.length + 1),
-      (divs (add (matmul Xa (reshapeRow (linspace 1 ((nat cuts.length : ℝ) + 1) (cuts.length + 1)))) ba) T).get i.val k.val
-        = (logits (x i) cuts).getD k.val 0 / T := by
+      (divs (add (matmul Xa Wa) ba) T).get i.val k.val = (logits (x i) cuts).getD k.val 0 / T := by
     intro k
     have hx0 : Xa.get i.val 0 = x i := hXget i ⟨0, Nat.one_pos⟩
-    simp only [divs_get, add, zipWith_get, matmul_get, matmul_r, matmul_c, reshapeRow_get, reshapeRow_c, linspace_c,
+    simp only [divs_get, add, zipWith_get, matmul_get, matmul_r, matmul_c, hWc,
       hXr, hXc, hbr, hbc, bidx_val, bidx_one, sumTo_def, sumFin_eq_sum, Fin.sum_univ_one, Fin.val_zero, hx0]
-    rw [linspace_one_get _ _ _ k.isLt, hbget k.val k.isLt, logits_getD' _ _ k.isLt]
+    rw [hWget k.val k.isLt, hbget k.val k.isLt, logits_getD' _ _ k.isLt]
   simp only [add] at hrow ⊢
-  simp only [softmax_get, divs_c, zipWith_c, matmul_c, reshapeRow_c, linspace_c, hbc, bdim_self]
+  simp only [softmax_get, divs_c, zipWith_c, matmul_c, hWc, hbc, bdim_self]
   rw [softmaxRowN_val (K := cuts.length + 1) _ ⟨j, hj⟩, ← softmaxRow_ofFn_getD]
   simp only [binning]
   congr 2
@@ -139,6 +160,14 @@ theorem softmax_logits_get (T : ℝ) {n : ℕ} {Xa ba : Arr ℝ} {x : Fin n → 
     have hk : k < cuts.length + 1 := by simpa using h1
     simp only [List.getElem_ofFn, List.getElem_map]
     rw [hrow ⟨k, hk⟩, List.getD_eq_getElem _ _ (by rw [logits_length]; exact hk)]
+
+/-- `softmax((X @ W + b) / self.temperature)`, row `i`, with `W` spelled `np.linspace` -/
+theorem softmax_logits_get (T : ℝ) {n : ℕ} {Xa ba : Arr ℝ} {x : Fin n → ℝ} {cuts : List ℝ}
+    (hX : IsMat Xa (fun i (_ : Fin 1) => x i)) (hb : IsVec ba (Model.Douglas.bias cuts)) (i : Fin n) {j : ℕ}
+    (hj : j < cuts.length + 1) :
+    (softmax (divs (add (matmul Xa (reshapeRow (linspace 1 ((nat cuts.length : ℝ) + 1) (cuts.length + 1)))) ba) T)).get i.val j
+      = (binning T (x i) cuts).getD j 0 :=
+  softmax_logits_get_of_weights T (isWeights_linspace cuts.length) hX hb i hj
 
 /-! ### `_merge_leaf` and the `reduce` -/
 
